@@ -120,8 +120,6 @@ def guards(node, stop=None):
     out = []
     child = node
     for p in parents(node):
-        if p is stop:
-            break
         if isinstance(p, ast.If):
             if any(child is x for x in p.body):
                 out.append((p.test, True))
@@ -144,7 +142,7 @@ def guards(node, stop=None):
                 for prev in reversed(blk[:i]):
                     if isinstance(prev, ast.If) and _terminates(prev.body) and not prev.orelse:
                         out.append((prev.test, False))
-        if isinstance(p, FUNC):
+        if isinstance(p, FUNC) or p is stop:
             break
         child = p
     out.reverse()
